@@ -223,3 +223,7 @@ def exhaustive_cases():
                 for b in range(a + 1, d + 1):
                     out.append(["split_at", t, ign, b, a])
     return out
+
+
+from props import envrecv  # noqa: E402
+envrecv.install(globals(), "split_at", 0.05)      # 5 % of the cases: an envelope is the receiver (judged as in C11)
